@@ -256,6 +256,16 @@ def check_shadowing(ctx, V):
         if isinstance(r.action, TT) and tuple(r.action) in want_types:
             for w in (V.rule_words.get(r.index) or ()):
                 words[w] = r.action
+    # a multi-word rule that starts with a statement keyword and gives the whole a different type: `WITH DATA`, `WITH TIES` as plain
+    # Keyword take the WITH of `with data as (...) select ...` out of the CTE vocabulary (the second word can be any name)
+    for w, tt in sorted(words.items()):
+        if ' ' in w:
+            continue
+        for ext, ett in sorted(V.extensions(w).items()):
+            ctx.ob('R18.3', f'extension:{ext}', T.kwmod.relpath, f'the multi-word keyword {ext!r} has the type of its first word {w} ({tt!r})',
+                   isinstance(ett, TT) and tuple(ett) == tuple(tt),
+                   f'{ext!r} is one token typed {ett!r}: a statement that starts with {w} followed by the name {ext.split(" ", 1)[1].lower()!r} '
+                   f'(e.g. a CTE called {ext.split(" ", 1)[1].lower()}) has no {tt!r} token, get_type() returns UNKNOWN')
     ctx.info['dml_ddl_cte_words'] = sorted(words)
     core = {'SELECT': 'DML', 'INSERT': 'DML', 'UPDATE': 'DML', 'DELETE': 'DML', 'CREATE': 'DDL', 'ALTER': 'DDL', 'DROP': 'DDL',
             'CREATE OR REPLACE': 'DDL', 'WITH': 'CTE'}
